@@ -32,7 +32,7 @@ def resultFields : List (String × String) := [
   ("_NSIntegralState", "logw"), ("_NSIntegralState", "oldZ"), ("_NSIntegralState", "gradients"), ("_NSIntegralState", "nlive"),
   -- flow proposal: pool, counters, reparameterisation state, flow, model
   ("FlowProposal", "x"), ("FlowProposal", "samples"), ("FlowProposal", "indices"), ("FlowProposal", "populated"),
-  ("FlowProposal", "populated_count"), ("FlowProposal", "population_acceptance"), ("FlowProposal", "population_time"),
+  ("FlowProposal", "populating"), ("FlowProposal", "populated_count"), ("FlowProposal", "population_acceptance"), ("FlowProposal", "population_time"),
   ("FlowProposal", "training_count"), ("FlowProposal", "r"), ("FlowProposal", "acceptance"),
   ("FlowProposal", "_checked_population"), ("FlowProposal", "_poolsize_scale"), ("FlowProposal", "_reparameterisation"),
   ("FlowProposal", "rescaling_set"), ("FlowProposal", "parameters"), ("FlowProposal", "prime_parameters"),
